@@ -30,6 +30,7 @@ import (
 	"sort"
 	"strconv"
 	"strings"
+	"sync"
 	"testing"
 	"time"
 
@@ -545,11 +546,12 @@ func TestC35(t *testing.T) {
 	r := mon.Start(t, "C35")
 	defer r.Finish()
 	r.Rule("(a) form = 0-4 value parts + 0-3 file parts in random wire order over tricky field/file names, values with CRLF / near-miss boundaries, boundaries over the full RFC 2046 alphabet, file sizes around 8 KiB (stream threshold) and 16 MiB (pre-parse threshold, few cases); reference-parsed form f0 -> fasthttp.WriteMultipartForm -> Request{body bytes | wire Read (+Write/Read again) | body stream}.MultipartForm() == f0. " +
-		"(b) history = 2-5 requests on one keep-alive connection of a real Server.ServeConn: uploads (complete, truncated, garbage, chunked, Expect: 100-continue, client cut mid-body) and plain requests, server options DisablePreParseMultipartForm x StreamRequestBody x ReduceMemoryUsage x body limit, handler actions none/MultipartForm/FormValue/FormFile/remove+reparse/close. " +
+		"(b) history = 2-5 requests on one keep-alive connection of a real Server.ServeConn: uploads (complete, truncated, garbage, chunked, gzip-encoded, with epilogue, Expect: 100-continue, client cut mid-body) and plain requests, server options DisablePreParseMultipartForm x StreamRequestBody x ReduceMemoryUsage x KeepHijackedConns x body limit, handler actions none/MultipartForm/FormValue/FormFile/remove+reparse/close/MultipartFormWithLimit(n) with n = body length -2/-1/0/+1 (fixed matrix over Content-Length/chunked/gzip/gzip+chunked x epilogue, plus random), optionally followed by ctx.Hijack on the last request (fixed matrix KeepHijackedConns x ReduceMemoryUsage x mode x action). " +
 		"distinct = feature vector (route or server options, part counts, size buckets, request kinds, handler actions); non-trivial = a file part exists (a) / a temp file was observed on disk during the history (b)")
 	r.Assume("mime/multipart (writer and ReadForm) is the reference; forms that mime/multipart itself does not round-trip (empty field name, CR/LF in names, content containing the delimiter) are skipped and counted")
 	r.Assume("temp files are attributed by the marker at the start of every generated file part; multipart-* files without a readable marker are only judged by the final whole-directory check")
-	r.Assume("timed-out requests (TimeoutHandler), hijacked connections and handlers that move the files away are not generated")
+	r.Assume("timed-out requests (TimeoutHandler) and handlers that move the files away are not generated")
+	r.Assume("hijacked connections: the hijack handler writes a marker and returns; the connection is then closed by the server (or by the test when KeepHijackedConns); histories that hijack run one at a time, and the directory is listed once no goroutine is inside fasthttp.hijackConnHandler any more (goroutine dump; a wall-clock cap only makes the case inconclusive)")
 
 	base := os.TempDir()
 	tmp := filepath.Join(base, "c35-tmp")
@@ -569,12 +571,37 @@ func TestC35(t *testing.T) {
 	r.Set("phase_seconds", map[string]float64{"roundtrip": t1.Sub(t0).Seconds(), "histories": time.Since(t1).Seconds()})
 
 	// backstop: nothing multipart-* may be left once every case has finished
-	left := scanTmp(tmp)
+	all := scanTmp(tmp)
+	var left []tmpInfo
+	for _, ti := range all {
+		if !wasReported(ti.Name) {
+			left = append(left, ti) // (files already named by a violation of their own case are not reported twice)
+		}
+	}
 	r.Event("final_dir_scans", 1)
 	if len(left) > 0 && !r.Replaying() {
 		r.Violation(-1, "tempfile-left-at-end", fmt.Sprintf("%d multipart-* files left in TMPDIR after all cases: %+v", len(left), left[:min(len(left), 5)]), left)
 	}
-	for _, ti := range left {
+	for _, ti := range all {
 		os.Remove(filepath.Join(tmp, ti.Name))
 	}
+}
+
+var (
+	reportedMu sync.Mutex
+	reported   = map[string]bool{}
+)
+
+func markReported(tis []tmpInfo) {
+	reportedMu.Lock()
+	for _, ti := range tis {
+		reported[ti.Name] = true
+	}
+	reportedMu.Unlock()
+}
+
+func wasReported(name string) bool {
+	reportedMu.Lock()
+	defer reportedMu.Unlock()
+	return reported[name]
 }
